@@ -540,7 +540,7 @@ def whole_run(scratch: Any, fmt: str, cases: Sequence[Dict[str, Any]]) -> List[O
         raise MachineryError(f"whole run produced no page (rc={p.returncode}): {p.stdout[-500:]} {p.stderr[-500:]}")
     logs: Dict[int, List[str]] = {}
     for m in p.stdout.splitlines():
-        mm = re.match(r"^wr:(\d+): ", m)
+        mm = re.match(r"^\S*(?:wr|__init__\.py):(\d+): ", m)      # "<path>/wr/__init__.py:<line>: message"
         if mm:
             k = bisect.bisect_right(starts, (int(mm.group(1)), 10 ** 9)) - 1
             if k >= 0:
